@@ -73,7 +73,7 @@ def nbins_of(widths):
 
 def np_dtype(name):
     return {"int8": np.int8, "int16": np.int16, "int32": np.int32, "int64": np.int64, "uint8": np.uint8,
-            "uint16": np.uint16, "uint32": np.uint32, "float64": np.float64, "float32": np.float32, "bool": np.bool_}[name]
+            "uint16": np.uint16, "uint32": np.uint32, "uint64": np.uint64, "object": object, "float64": np.float64, "float32": np.float32, "bool": np.bool_}[name]
 
 
 def col_values(rows, k, kind, in_dtype=None):
@@ -92,6 +92,8 @@ def make_chunk(rows, cols, form="dict", id_dtype="int64"):
         d[col[0]] = col_values(rows, k, col[1], col[3] if len(col) > 3 else None)
     if form == "df":
         return pd.DataFrame(d)
+    if form == "lists":                                   # dict of plain Python lists
+        return {k: v.tolist() for k, v in d.items()}
     return d
 
 
